@@ -256,7 +256,8 @@ Definition alphabet (id : N) : list N :=
   match id with
   | 0 => map N.of_nat (seq 0 256)
   | 1 => [0; 1; 127; 128; 129; 130; 131; 132; 255]
-  | _ => [0; 1; 2; 39; 40; 79; 80; 127; 128; 129; 130; 255]
+  | 2 => [0; 1; 2; 39; 40; 79; 80; 127; 128; 129; 130; 255]
+  | _ => [0; 1; 2; 39; 40; 79; 80; 126; 127; 128; 129; 130; 191; 192; 254; 255]
   end.
 
 (* every extension of the prefix by at most [depth] bytes of the alphabet, depth first,
